@@ -837,6 +837,83 @@ func (c *Ctx) ruleC08Scanner(m *scanfsm.Machine) {
 			r.Ok("C08-COMMENT-RETURN", "comment state "+s, "emits nothing, line ends pop and re-feed, block end pops", c.P.Pos(m.Pos[s]))
 		}
 	}
+	// the closing fence of a block comment is as long as the opening one, and made of bytes read inside the comment
+	{
+		r.Rule("C08-COMMENT-FENCE", "block comments: the number of bytes that must be consumed inside the comment before it can end (shortest path in the comment states from the first state in which a line end no longer ends the comment to the transition that pops and consumes) is at least the length of the opening fence (the byte that starts the comment plus the shortest path to that state): the bytes of the opening fence never count towards the closing one, so '####' does not open and close a comment", 1)
+		lineEnds := func(st string) bool { // a line end ends the comment here
+			for _, o := range m.Trans[st]['\n'] {
+				if o.Term == scanfsm.TPopped {
+					return true
+				}
+			}
+			return false
+		}
+		// shortest consumed-byte distance from `from` to every comment state
+		dist := func(from string) map[string]int {
+			d := map[string]int{from: 0}
+			work := []string{from}
+			for len(work) > 0 {
+				x := work[0]
+				work = work[1:]
+				for b := 1; b < 256; b++ {
+					for _, o := range m.Trans[x][b] {
+						if o.Term != scanfsm.TOk {
+							continue
+						}
+						fs := o.FinalStep()
+						if fs == "" {
+							fs = x
+						}
+						if !cs[fs] {
+							continue
+						}
+						if _, seen := d[fs]; !seen {
+							d[fs] = d[x] + 1
+							work = append(work, fs)
+						}
+					}
+				}
+			}
+			return d
+		}
+		dEnt := dist(ent)
+		block, openLen := "", -1
+		for st, dd := range dEnt {
+			if !lineEnds(st) && (openLen < 0 || dd+1 < openLen || (dd+1 == openLen && st < block)) {
+				block, openLen = st, dd+1
+			}
+		}
+		if block == "" {
+			r.Ok("C08-COMMENT-FENCE", "block comments", "no comment state survives a line end: the language has no block comments in this tree", "")
+		} else {
+			dB := dist(block)
+			closeLen := -1
+			for st, dd := range dB {
+				for b := 1; b < 256; b++ {
+					for _, o := range m.Trans[st][b] {
+						pops := false
+						for _, e := range o.Effs {
+							if e.K == scanfsm.EPop {
+								pops = true
+							}
+						}
+						if pops && o.Term == scanfsm.TOk && (closeLen < 0 || dd+1 < closeLen) {
+							closeLen = dd + 1
+						}
+					}
+				}
+			}
+			key := "block comment entered in " + block
+			switch {
+			case closeLen < 0:
+				r.Bad("C08-COMMENT-FENCE", key, "no transition ends a block comment", c.P.Pos(m.Pos[block]))
+			case closeLen < openLen:
+				r.Bad("C08-COMMENT-FENCE", key, fmt.Sprintf("the opening fence is %d bytes long, but the comment can end after %d byte(s) read inside it: bytes of the opening fence count towards the closing one (a decision taken by looking behind the cursor cannot tell them apart), so a longer opening fence closes the comment at once and its text is scanned as directives", openLen, closeLen), c.P.Pos(m.Pos[block]))
+			default:
+				r.Ok("C08-COMMENT-FENCE", key, fmt.Sprintf("opening fence %d bytes, closing needs %d bytes read inside the comment", openLen, closeLen), c.P.Pos(m.Pos[block]))
+			}
+		}
+	}
 	// every '#' transition out of a non-comment state that is not an error and not content either enters a comment properly
 	for _, st := range m.Steps {
 		if cs[st] || !a.StatesSeen[st] {
@@ -1599,4 +1676,145 @@ func (c *Ctx) ruleEOFAsEOL(m *scanfsm.Machine, a *scanfsm.Analysis) {
 	if n == 0 {
 		r.Undecided("C09-EOF-AS-EOL", "states", "no state found in which LF simply ends the line", "")
 	}
+}
+
+// ruleOpenTransparent: "(" is announced and then forgotten: the scanner reads what follows "(" and the line end exactly
+// as it reads what follows the line end alone (E1, bounded bisimulation on the explored configurations).
+func (c *Ctx) ruleOpenTransparent(m *scanfsm.Machine, rule string) {
+	r := c.R
+	r.Rule(rule, "in every reachable configuration of the scanner automaton in which the byte '(' is announced as ContextOpen, the scanner afterwards reads the input as it would without the parenthesis: the behaviour (events, errors) on every byte sequence up to the lookahead (2 bytes quick, 3 thorough) after '(' LF equals that after LF alone - a body, an enum list or nested directives are scanned the same in the explicit and the implicit layout", 1)
+	a := c.Analysis(stackK, false)
+	if a == nil {
+		r.Undecided(rule, "E1", "no exploration", "")
+		return
+	}
+	la := 2
+	if r.Tier == "thorough" {
+		la = 3
+	}
+	divs, compared := a.ContextOpenDivergences(la)
+	if compared < 5 {
+		r.Undecided(rule, "sites", fmt.Sprintf("only %d configurations announce '(' as ContextOpen (expected the keyword state and the body states)", compared), "")
+		return
+	}
+	seen := map[string]bool{}
+	for _, d := range divs {
+		if seen[d.State] || len(seen) >= 8 {
+			continue
+		}
+		seen[d.State] = true
+		r.Bad(rule, "state "+d.State, fmt.Sprintf("after '(' and the line end the scanner does not continue as after the line end alone (stack %s). plain: %.300s   explicit: %.300s   (reached by %s)", d.Stack, d.Plain, d.Explicit, d.Trace), c.P.Pos(m.Pos[d.State]))
+	}
+	if len(divs) == 0 {
+		r.Ok(rule, "all configurations", fmt.Sprintf("%d configurations announce '(' as ContextOpen: each continues as without it", compared), "")
+	}
+	r.Stats["open_transparent_compared"] = compared
+}
+
+// ruleParamsPositionFree: which reader a body is handed to (jsight schema, regex, none) is decided by the scanner from
+// the parameters of the directive it has just read. The core classifies parameters by their look, not by their place
+// (directive.AppendParameter), so `TYPE regex @a` is the directive `TYPE @a regex`. The scanner's predicates have to be
+// as position-free: the parameter list is only walked as a whole.
+func (c *Ctx) ruleParamsPositionFree(rule string) {
+	r := c.R
+	r.Rule(rule, "the scanner's list of the parameters of the current directive (the []*Lexeme field of Scanner) is only appended to, emptied, measured, or walked from end to end (range, or a counting loop that covers every index): no predicate looks at one position of it, because the core classifies parameters by their look and accepts them in any order", 3)
+	pk := c.P.Pkg("scanner")
+	if pk == nil {
+		r.Undecided(rule, "anchor", "package scanner not found", "")
+		return
+	}
+	var fields []*types.Var
+	if tn, ok := pk.Types.Scope().Lookup("Scanner").(*types.TypeName); ok {
+		if st, ok := tn.Type().Underlying().(*types.Struct); ok {
+			for i := 0; i < st.NumFields(); i++ {
+				if sl, ok := st.Field(i).Type().(*types.Slice); ok {
+					if p, ok := sl.Elem().(*types.Pointer); ok && namedType(p.Elem()) == prog.ModulePath+"/scanner.Lexeme" {
+						fields = append(fields, st.Field(i))
+					}
+				}
+			}
+		}
+	}
+	if len(fields) == 0 {
+		r.Undecided(rule, "anchor", "no []*Lexeme field in scanner.Scanner", "")
+		return
+	}
+	isF := func(f *Fn, e ast.Expr) bool {
+		fv := fieldSel(f.Pkg, e)
+		for _, x := range fields {
+			if fv == x {
+				return true
+			}
+		}
+		return false
+	}
+	n := 0
+	perFn := map[string]int{}
+	for _, f := range c.libFns() {
+		if f.Pkg != pk {
+			continue
+		}
+		inspectWithStack(f.Decl.Body, func(nd ast.Node, stack []ast.Node) bool {
+			e, ok := nd.(ast.Expr)
+			if !ok || !isF(f, e) || len(stack) == 0 {
+				return true
+			}
+			if _, isSel := nd.(*ast.SelectorExpr); !isSel {
+				return true
+			}
+			n++
+			perFn[f.Name()]++
+			key := fmt.Sprintf("%s | %s #%d", f.Name(), exprString(e), perFn[f.Name()])
+			par := stack[len(stack)-1]
+			why := ""
+			switch p := par.(type) {
+			case *ast.RangeStmt:
+				if p.X == e {
+					why = "walked by range"
+				}
+			case *ast.CallExpr:
+				if id, ok := p.Fun.(*ast.Ident); ok && (id.Name == "len" || id.Name == "cap" || (id.Name == "append" && len(p.Args) > 0 && p.Args[0] == e)) {
+					why = id.Name
+				}
+			case *ast.AssignStmt:
+				for _, l := range p.Lhs {
+					if l == e {
+						why = "assigned"
+					}
+				}
+			case *ast.SliceExpr:
+				if p.X == e && p.Low == nil && p.High != nil {
+					if k, isK := constInt(f.Pkg, p.High); isK && k == 0 {
+						why = "emptied"
+					}
+				}
+			case *ast.IndexExpr:
+				if p.X == e {
+					// the counter of a loop that covers every index of this list
+					if id, ok := ast.Unparen(p.Index).(*ast.Ident); ok {
+						for i := len(stack) - 1; i >= 0; i-- {
+							if fs, isFor := stack[i].(*ast.ForStmt); isFor {
+								if lc := coverOfLoop(f, fs); lc != nil && lc.first == "" && lc.last == "" && lc.list == exprString(unalias(f, e)) {
+									if init, ok := fs.Init.(*ast.AssignStmt); ok && len(init.Lhs) == 1 {
+										if iv, ok := init.Lhs[0].(*ast.Ident); ok && f.Pkg.TypesInfo.Defs[iv] == f.Pkg.TypesInfo.Uses[id] {
+											why = "indexed by the counter of a loop over every index"
+										}
+									}
+								}
+							}
+						}
+					}
+				}
+			case *ast.KeyValueExpr:
+				why = "initialised"
+			}
+			if why != "" {
+				r.OkTrivial(rule, key, why, c.pos(nd.Pos()))
+			} else {
+				r.Bad(rule, key, "the parameter list is looked at by position ("+exprString(par.(ast.Node).(ast.Expr))+"): a directive whose parameters come in another order is scanned differently, although the core accepts it as the same directive", c.pos(nd.Pos()))
+			}
+			return true
+		})
+	}
+	r.Stats["param_list_uses"] = n
 }
